@@ -568,13 +568,6 @@ def run(ctx: Ctx) -> int:
     if donor:
         corrupt = {f"corrupt/{name}": (f"corrupt/{name}", donor[1], donor[2], evs) for name, evs in corruptions(donor[3]).items()}
     tv = validate_traces(ctx, rep, trace_items + list(corrupt.values()), "all")
-    if donor and tv["verdict"].get(donor[0]):
-        wrongly = [c for c in corrupt if tv["verdict"].get(c)]
-        if wrongly or len(corrupt) < 6:
-            raise MachineryError(f"binding self-test: corrupted copies of an accepted trace were accepted by TLC: {wrongly}")
-        rep.notes["binding_selftest"] = {c: f"rejected after {tv['prefix'].get(c, 0)} of {len(corrupt[c][3])} events" for c in sorted(corrupt)}
-    elif not failed:
-        raise MachineryError("binding self-test: no accepted crash trace to corrupt")
     by_id = {sc["id"]: sc for sc in scs}
     for tid, _nk, _sw, evs in trace_items:
         acc = tv["verdict"].get(tid, False)
@@ -593,6 +586,17 @@ def run(ctx: Ctx) -> int:
             det = {"what": "recorded trace is not a behaviour of any property-satisfying design", "tlc": "rejected",
                    "matched_prefix": pre, "first_unmatched_event": evs[pre] if pre < len(evs) else None, "trace": evs}
             rep.mismatch(scen, det, classify(scen, det) if sc else None)
+    # binding self-test (only meaningful when TLC accepted the donor; a broken tree must end in VIOLATION lines,
+    # never in a machinery failure of the self-test)
+    if donor and tv["verdict"].get(donor[0]):
+        wrongly = [c for c in corrupt if tv["verdict"].get(c)]
+        if wrongly or len(corrupt) < 6:
+            raise MachineryError(f"binding self-test: corrupted copies of an accepted trace were accepted by TLC: {wrongly}")
+        rep.notes["binding_selftest"] = {c: f"rejected after {tv['prefix'].get(c, 0)} of {len(corrupt[c][3])} events" for c in sorted(corrupt)}
+    elif not rep.violations:
+        raise MachineryError("binding self-test: no accepted crash trace to corrupt")
+    else:
+        rep.notes["binding_selftest"] = "skipped: no accepted crash trace on this tree (see the violations)"
     if machinery and not rep.violations and not rep.known_hits:
         raise MachineryError(machinery)
     if machinery:
